@@ -50,7 +50,7 @@ VIX = "dask_array.slicing._vindex"
 ARG = "dask_array.creation._arange"
 DB = "dask.blockwise"
 MT = "dask_array._materialize"
-MODS = [MT, "dask_array.creation._eye", "dask_array.slicing._blocks", "dask_array.slicing._setitem", "dask_array.core._blockwise_funcs", "dask_array.core._conversion", EX, BW, CU, RC, FA, IOB, SB, SU, "dask_array.slicing", CO, NC, TR, XP, SQ, BT, CC, SK, RD, RCM, SHF, VIX, ARG, "dask_array._overlap", "dask_array._map_blocks", "dask_array._chunk", "dask.layers", "dask_array.reductions._sliding_window", "dask_array.manipulation._reshape", "dask_array.reductions._arg_reduction", "dask_array.creation._diag", "dask_array.creation._diagonal", "dask_array.routines._unique", "dask_array.creation._ones_zeros", "dask_array.creation._utils", "dask_array.routines._topk", "dask_array.io._from_graph", "dask_array.manipulation._roll", "dask_array.manipulation._flip", "dask_array.creation._tile", "dask_array.creation._pad", "dask_array.creation._repeat", "dask_array.routines._diff", "dask_array.reductions._cumulative", "dask_array.routines._where", "dask_array.stacking._block", "dask_array.stacking._simple", "dask_array.routines._insert_delete", "dask_array.routines._triangular", "dask_array.routines._outer", "dask_array._ufunc", "dask_array.routines._gradient", DB]
+MODS = [MT, "dask_array.io._store", "dask_array.creation._eye", "dask_array.slicing._blocks", "dask_array.slicing._setitem", "dask_array.core._blockwise_funcs", "dask_array.core._conversion", EX, BW, CU, RC, FA, IOB, SB, SU, "dask_array.slicing", CO, NC, TR, XP, SQ, BT, CC, SK, RD, RCM, SHF, VIX, ARG, "dask_array._overlap", "dask_array._map_blocks", "dask_array._chunk", "dask.layers", "dask_array.reductions._sliding_window", "dask_array.manipulation._reshape", "dask_array.reductions._arg_reduction", "dask_array.creation._diag", "dask_array.creation._diagonal", "dask_array.routines._unique", "dask_array.creation._ones_zeros", "dask_array.creation._utils", "dask_array.routines._topk", "dask_array.io._from_graph", "dask_array.manipulation._roll", "dask_array.manipulation._flip", "dask_array.creation._tile", "dask_array.creation._pad", "dask_array.creation._repeat", "dask_array.routines._diff", "dask_array.reductions._cumulative", "dask_array.routines._where", "dask_array.stacking._block", "dask_array.stacking._simple", "dask_array.routines._insert_delete", "dask_array.routines._triangular", "dask_array.routines._outer", "dask_array._ufunc", "dask_array.routines._gradient", DB]
 STUBS = SHIM_LIST + [
     "concatenate3 -> the array model's nested concatenation (called by the repository's own finalize and as a block kernel)",
     "expression classes -> symx.nodes (real methods on cloned code; constructors/tokenize bypassed, structural names); the "
